@@ -549,3 +549,75 @@ pub fn term_kind(m: &Model) -> &'static str {
         Terminal::Err(e) => e.kind(),
     }
 }
+
+// ------------------------------------------------------------------------------------------------
+// big documents (tens of kilobytes, hundreds of records, capacities up to the 64 KiB default)
+
+pub fn big_input(format: Format) -> BoxedStrategy<B> {
+    let rec = (1usize..12, prop_oneof![3 => 0usize..80, 2 => 80usize..400, 1 => 400usize..3000], any::<u8>());
+    (vec(rec, 20..200), endings(), any::<bool>(), prop_oneof![1 => Just(60usize), 1 => Just(70usize), 1 => 1usize..200], prop::option::weighted(0.3, any::<u16>()))
+        .prop_map(move |(recs, e, final_term, width, truncate)| {
+            let mut out = Vec::new();
+            let mut bit = 0usize;
+            let mut term = |out: &mut Vec<u8>| {
+                bit += 1;
+                let crlf = match e {
+                    Endings::Lf => false,
+                    Endings::Crlf => true,
+                    Endings::Mixed => bit % 3 == 0,
+                };
+                if crlf {
+                    out.push(b'\r');
+                }
+                out.push(b'\n');
+            };
+            for (i, (idlen, slen, salt)) in recs.iter().enumerate() {
+                let id: Vec<u8> = format!("r{}_{}", i, "x".repeat(*idlen)).into_bytes();
+                let seq: Vec<u8> = (0..*slen).map(|k| b"ACGTN"[(k + *salt as usize + i) % 5]).collect();
+                match format {
+                    Format::Fasta => {
+                        out.push(b'>');
+                        out.extend_from_slice(&id);
+                        term(&mut out);
+                        for l in seq.chunks(width) {
+                            out.extend_from_slice(l);
+                            term(&mut out);
+                        }
+                    }
+                    Format::Fastq => {
+                        // per record one ending (never mixed inside a record)
+                        let crlf = match e {
+                            Endings::Lf => false,
+                            Endings::Crlf => true,
+                            Endings::Mixed => i % 2 == 0,
+                        };
+                        let t: &[u8] = if crlf { b"\r\n" } else { b"\n" };
+                        out.push(b'@');
+                        out.extend_from_slice(&id);
+                        out.extend_from_slice(t);
+                        out.extend_from_slice(&seq);
+                        out.extend_from_slice(t);
+                        out.push(b'+');
+                        out.extend_from_slice(t);
+                        out.extend(std::iter::repeat(b'I').take(seq.len()));
+                        out.extend_from_slice(t);
+                    }
+                }
+            }
+            if !final_term {
+                while matches!(out.last(), Some(b'\n') | Some(b'\r')) {
+                    out.pop();
+                }
+            }
+            if let Some(t) = truncate {
+                let k = idx(t, out.len() + 1);
+                out.truncate(k);
+            }
+            B(out)
+        })
+        .boxed()
+}
+
+pub fn big_cap() -> BoxedStrategy<usize> {
+    prop_oneof![2 => 3usize..300, 3 => 300usize..5000, 2 => 5000usize..70000, 2 => Just(65536usize), 1 => Just(1usize << 17)].boxed()
+}
